@@ -21,7 +21,7 @@ LEVEL = "exploration"
 META = {
     "engine": "crash-time-monitor",
     "technique": "runtime monitor: response-shape and range monitors on every outgoing message while sweeping positions x all nine positional methods over samples, mutations and the bundled intrinsic/keyword tables",
-    "text": "All nine position-based methods are issued at swept positions (identifier start/middle/end, column 0, end of line, one past it, past end of file) of the repository samples, their mutations, unterminated and empty documents, and with every bundled intrinsic/keyword/statement/module-member name under the cursor; monitors check that no request is answered with an error, that results have the protocol shape and that every range in every outgoing message addresses an existing place. Table sweep is complete over the bundled tables; positions are sampled in quick tier.",
+    "text": "All nine position-based methods are issued at swept positions (identifier start/middle/end, column 0, end of line, one past it, past end of file) of the repository samples, their mutations, unterminated and empty documents, and with every bundled intrinsic/keyword/statement/module-member name under the cursor; monitors check that no request is answered with an error, that results have the protocol shape and that every range in every outgoing message addresses an existing place. Table sweep is complete over the bundled tables; positions are sampled in quick tier. Three more classes: generated programs (also rendered in fixed form, and submodule/INCLUDE workspaces), relink (consumers swept after their provider module changed shape by save, buffer edit or deletion) and edit-query (unsaved in-line edits interleaved with requests).",
     "note": "trusted: hand-written LSP result-shape validators and range walker; the text a range is checked against is the server's own buffer of the target file (disk content for files not loaded)",
 }
 RULE = ("(document, position, method) triples: documents = repository sample sources inside their full sample workspace, C03-style mutations, "
